@@ -9,6 +9,7 @@
   the unrepaired one.
 -/
 import ArtVerif.Props.C06
+import ArtVerif.Gen.Clear
 namespace ArtVerif.C17
 open ArtVerif T Tree
 
@@ -135,6 +136,17 @@ theorem emptied_retains_nothing {tf} {t : Tree V} (h : Inv tf t) (he : items t =
       simp [items, leaves, hr] at he
       exact this he
   · have := h.size; rw [he] at this; simpa using this
+
+/-! ### nodes released to the shared pool reference nothing -/
+
+/-- `clear()` wipes every field – in particular the whole child array – of every pooled node struct, so a node
+    waiting in the pool, or reused by another tree, keeps nothing of its former tree alive (regenerated table) -/
+theorem released_nodes_reference_nothing :
+    ["node4", "node16", "node48", "node256"].all (fun s =>
+      let fields := ((Gen.nodeStructFields.find? (·.1 == s)).map (·.2)).getD []
+      let cleared := ((Gen.clearedFields.find? (·.1 == s)).map (·.2)).getD []
+      fields.contains "children" && fields.all (fun f => cleared.contains f)) = true ∧
+    Gen.putSites.all (fun (_, _, cleared, _) => cleared) = true := by decide
 
 /-! ### the per-tree scratch buffer of collation trees -/
 
